@@ -1,7 +1,11 @@
 mod digest;
 mod exec;
+mod gen;
 mod locate_dispatch;
+mod prop;
+mod props;
 mod rng;
+mod runner;
 mod scenario;
 mod sched;
 mod vfs;
@@ -35,8 +39,12 @@ fn main() {
     let args: Vec<String> = std::env::args().collect();
     match args.get(1).map(|s| s.as_str()) {
         Some("smoke") => smoke(),
+        Some("check") if args.len() >= 4 => std::process::exit(runner::cmd_check(&args[2], &args[3])),
+        Some("worker") if args.len() >= 9 => std::process::exit(runner::cmd_worker(&args[2..])),
+        Some("eval") if args.len() >= 3 => std::process::exit(runner::cmd_eval(&args[2])),
+        Some("replay") if args.len() >= 3 => std::process::exit(runner::cmd_replay(&args[2])),
         _ => {
-            eprintln!("usage: svsim smoke");
+            eprintln!("usage: svsim check <Cxx> <quick|thorough> | replay <file> | eval <file> | smoke");
             std::process::exit(2);
         }
     }
